@@ -41,6 +41,30 @@ Proof. intro H. unfold incr32. apply N.mod_small. unfold max_u32, two32 in *. li
 Lemma incr32_zero : incr32 0 = 1.
 Proof. reflexivity. Qed.
 
+(* the overflow check: the error branch is taken exactly at 2^32-1 *)
+Lemma next32_zero : next32 0 = Some 1.
+Proof. reflexivity. Qed.
+
+Lemma next32_max : next32 max_u32 = None.
+Proof. reflexivity. Qed.
+
+Lemma next32_some v n : v < two32 -> next32 v = Some n -> v < max_u32 /\ n = v + 1.
+Proof.
+  intros Hv. unfold next32. cbv zeta. destruct (incr32 v =? 0) eqn:E; [discriminate|].
+  intro H. inversion H; subst. apply N.eqb_neq in E.
+  destruct (N.eq_dec v max_u32) as [->|Hne]; [exfalso; apply E; reflexivity|].
+  assert (Hm : v < max_u32) by (unfold max_u32, two32 in *; lia).
+  split; [exact Hm|apply incr32_small; exact Hm].
+Qed.
+
+Lemma next32_none v : v < two32 -> next32 v = None -> v = max_u32.
+Proof.
+  intros Hv. unfold next32. cbv zeta. destruct (incr32 v =? 0) eqn:E; [|discriminate].
+  intros _. destruct (N.eq_dec v max_u32) as [->|Hne]; [reflexivity|exfalso].
+  assert (Hm : v < max_u32) by (unfold max_u32, two32 in *; lia).
+  rewrite (incr32_small v Hm) in E. apply N.eqb_eq in E. lia.
+Qed.
+
 (* ================= assoc-list callers ================= *)
 Lemma get_upd_same cs i c : get (upd cs i c) i = c.
 Proof. unfold get, upd. cbn. rewrite N.eqb_refl. reflexivity. Qed.
@@ -164,9 +188,9 @@ Definition link (st : state) : Prop :=
 
 Lemma after_read_not_done kv n : after_read kv <> Done (Some n).
 Proof.
-  unfold after_read. destruct kv as [[b idx]|].
-  - destruct (parse_u32 b); discriminate.
-  - rewrite parse_zero. discriminate.
+  unfold after_read, bump. destruct kv as [[b idx]|].
+  - destruct (parse_u32 b) as [v|]; [destruct (next32 v)|]; discriminate.
+  - rewrite parse_zero, next32_zero. discriminate.
 Qed.
 
 Lemma link_set_nonret st i c e :
@@ -348,30 +372,30 @@ Proof.
 Qed.
 
 Lemma caller_inv_after_read s :
-  wf_store s -> cur s < max_u32 -> caller_inv s (after_read (st_kv s)).
+  wf_store s -> caller_inv s (after_read (st_kv s)).
 Proof.
-  intros W Hm. unfold after_read. destruct (st_kv s) as [[b idx]|] eqn:K.
+  intros W. unfold after_read, bump. destruct (st_kv s) as [[b idx]|] eqn:K.
   - destruct (parse_u32 b) as [v|] eqn:P; [|exact I].
+    destruct (next32 v) as [n|] eqn:Nx; [|exact I].
+    destruct (next32_some v n (parse_lt _ _ P) Nx) as [Hm ->].
     assert (Hv : cur s = v) by (unfold cur; rewrite K, P; reflexivity).
     unfold wf_store in W. rewrite K in W. cbn.
-    rewrite incr32_small by lia. unfold max_u32, two32 in *.
+    unfold max_u32, two32 in *.
     repeat split; try lia.
-  - rewrite parse_zero, incr32_zero. cbn.
+  - rewrite parse_zero, next32_zero. cbn.
     assert (Hv : cur s = 0) by (unfold cur; rewrite K; reflexivity).
     unfold two32. repeat split; try lia.
 Qed.
 
 Lemma inv_step_caller v0 st i mode :
   inv v0 st ->
-  (mode = 0 -> get (s_callers st) i = Idle -> cur (s_store st) < max_u32) ->
   inv v0 (step_caller st i mode).
 Proof.
-  intros Hinv Hok. unfold step_caller.
+  intros Hinv. unfold step_caller.
   destruct (get (s_callers st) i) as [|n idx|r|] eqn:G; [| | exact Hinv | exact Hinv].
   - destruct (mode =? 0) eqn:M.
-    + apply N.eqb_eq in M.
-      apply (inv_quiet v0 st i [EvRead i] _ _ Hinv); [reflexivity|].
-      apply caller_inv_after_read; [apply Hinv|auto].
+    + apply (inv_quiet v0 st i [EvRead i] _ _ Hinv); [reflexivity|].
+      apply caller_inv_after_read. apply Hinv.
     + apply (inv_quiet v0 st i [] _ _ Hinv); [reflexivity|].
       destruct (mode =? 3); exact I.
   - destruct ((mode =? 0) || (mode =? 2)).
@@ -387,10 +411,10 @@ Qed.
 Lemma inv_step v0 st x : inv v0 st -> step_ok st x -> inv v0 (do_step st x).
 Proof.
   intros Hinv Hok. destruct x as [i|i|i|i|v|]; cbn [do_step].
-  - apply inv_step_caller; [exact Hinv|]. intros _. exact Hok.
-  - apply inv_step_caller; [exact Hinv|]. intro H; discriminate.
-  - apply inv_step_caller; [exact Hinv|]. intro H; discriminate.
-  - apply inv_step_caller; [exact Hinv|]. intro H; discriminate.
+  - apply inv_step_caller; exact Hinv.
+  - apply inv_step_caller; exact Hinv.
+  - apply inv_step_caller; exact Hinv.
+  - apply inv_step_caller; exact Hinv.
   - (* foreign put *)
     destruct Hok as (m & Pm & Hm). destruct Hinv as [W V Le G0 S C].
     pose proof (cur_write (s_store st) v m Pm) as Hc.
@@ -620,58 +644,77 @@ Proof.
     destruct (later_is_larger s0 sched _ _ _ _ _ _ _ W Hok E'). assumption.
 Qed.
 
-(* ================= the hypotheses are needed ================= *)
+(* ================= the exhausted counter ================= *)
 Definition b_4294967294 : str := [52;50;57;52;57;54;55;50;57;52].
 
-Lemma wrap_witness :
+(* a caller that reads 2^32-1 returns an error: nothing is written, nothing is handed out *)
+Lemma exhausted_fails st i b idx :
+  get (s_callers st) i = Idle -> st_kv (s_store st) = Some (b, idx) ->
+  parse_u32 b = Some max_u32 ->
+  s_store (do_step st (SServe i)) = s_store st /\
+  handed (do_step st (SServe i)) = handed st /\
+  get (s_callers (do_step st (SServe i))) i = Done None.
+Proof.
+  intros G K P. cbn [do_step]. unfold step_caller. rewrite G. cbn [N.eqb].
+  unfold after_read, bump. rewrite K, P, next32_max.
+  cbn [s_store s_trace s_callers]. rewrite get_upd_same.
+  split; [reflexivity|split; [|reflexivity]].
+  unfold handed, chron. cbn [s_trace rev]. rewrite flat_map_app. cbn. apply app_nil_r.
+Qed.
+
+(* the schedule that used to wrap: 4294967294, two starts *)
+Lemma boundary_example :
   let s0 := mkStore (Some (b_4294967294, 1)) 1 in
   let sched := [SServe 0; SServe 0; SServe 1; SServe 1] in
-  wf_store s0 /\ env_ok_nowrapclause (init s0) sched /\
-  handed (run (init s0) sched) = [4294967295; 0].
+  wf_store s0 /\ env_ok (init s0) sched /\
+  handed (run (init s0) sched) = [4294967295] /\
+  map (result (run (init s0) sched)) [0; 1] = [Some 4294967295; None] /\
+  cur (s_store (run (init s0) sched)) = 4294967295.
 Proof. vm_compute. repeat split; try reflexivity; intro H; discriminate H. Qed.
 
+(* ================= the hypothesis about other writers is needed ================= *)
 Lemma lowering_witness :
   let s0 := mkStore None 0 in
   let sched := [SPut [53]; SServe 0; SServe 0; SPut [53]; SServe 1; SServe 1] in
-  wf_store s0 /\ env_ok_noforeignclause (init s0) sched /\
-  handed (run (init s0) sched) = [6; 6].
+  wf_store s0 /\ handed (run (init s0) sched) = [6; 6].
 Proof. vm_compute. repeat split; try reflexivity; intro H; discriminate H. Qed.
 
-Lemma wrap_refutes :
-  ~ (forall s0 sched, wf_store s0 -> env_ok_nowrapclause (init s0) sched ->
-     StronglySorted N.lt (cur s0 :: handed (run (init s0) sched))).
-Proof.
-  intro H. destruct wrap_witness as (W & E & Hh).
-  specialize (H _ _ W E). rewrite Hh in H.
-  inversion H as [|? ? H1 _]; subst. inversion H1 as [|? ? _ F]; subst.
-  inversion F as [|? ? Hlt _]; subst. vm_compute in Hlt. discriminate Hlt.
-Qed.
-
 Lemma lowering_refutes :
-  ~ (forall s0 sched, wf_store s0 -> env_ok_noforeignclause (init s0) sched ->
-     NoDup (handed (run (init s0) sched))).
+  ~ (forall s0 sched, wf_store s0 -> NoDup (handed (run (init s0) sched))).
 Proof.
-  intro H. destruct lowering_witness as (W & E & Hh).
-  specialize (H _ _ W E). rewrite Hh in H.
+  intro H. destruct lowering_witness as (W & Hh).
+  specialize (H _ [SPut [53]; SServe 0; SServe 0; SPut [53]; SServe 1; SServe 1] W).
+  rewrite Hh in H.
   inversion H as [|? ? Hin _]; subst. apply Hin. left. reflexivity.
 Qed.
 
 (* ================= file backend ================= *)
+(* without the mutex two overlapping calls return the same number *)
 Lemma file_dup_witness :
-  fhanded (frun (finit (Some [53])) [0; 1; 0; 1; 0; 1]) = [6; 6].
+  fhanded (frun_nolock (finit (Some [53])) [0; 1; 0; 1; 0; 1]) = [6; 6].
 Proof. reflexivity. Qed.
 
-Lemma file_dup_refutes : ~ (forall f sched, NoDup (fhanded (frun (finit f) sched))).
+Lemma file_nolock_refutes : ~ (forall f sched, NoDup (fhanded (frun_nolock (finit f) sched))).
 Proof.
   intro H. specialize (H (Some [53]) [0; 1; 0; 1; 0; 1]). rewrite file_dup_witness in H.
   inversion H as [|? ? Hin _]; subst. apply Hin. left. reflexivity.
 Qed.
 
+(* who may hold the mutex *)
+Definition fcaller_inv (st : fstate) (i : N) : Prop :=
+  match fget (f_callers st) i with
+  | FChecked => f_lock st = Some i
+  | FHasRead n => f_lock st = Some i /\ n = fcur (f_file st) + 1 /\ n < two32
+  | _ => f_lock st <> Some i
+  end.
+
 Record finv (v0 : N) (st : fstate) : Prop := mkFinv {
   fi_v0 : v0 <= fcur (f_file st);
   fi_le : Forall (fun n => n <= fcur (f_file st)) (map snd (f_rets st));
   fi_gt0 : Forall (fun n => v0 < n) (map snd (f_rets st));
-  fi_sorted : StronglySorted N.gt (map snd (f_rets st))
+  fi_sorted : StronglySorted N.gt (map snd (f_rets st));
+  fi_count : fcur (f_file st) = v0 + N.of_nat (length (f_rets st));
+  fi_callers : forall i, fcaller_inv st i
 }.
 
 Lemma fget_cons_other cs i j c : j <> i -> fget ((i, c) :: cs) j = fget cs j.
@@ -680,108 +723,140 @@ Proof. intro H. unfold fget. cbn. apply N.eqb_neq in H. rewrite H. reflexivity. 
 Lemma fget_cons_same cs i c : fget ((i, c) :: cs) i = c.
 Proof. unfold fget. cbn. rewrite N.eqb_refl. reflexivity. Qed.
 
-Definition fcall3_result (st : fstate) (i : N) : fstate :=
-  match f_file st with
-  | None =>
-      mkF (Some (fmt_u 1))
-          ((i, FDone (Some 1)) :: (i, FHasRead 1) :: (i, FChecked) :: f_callers st)
-          ((i, 1) :: f_rets st)
-  | Some b =>
-      match parse_u32 b with
-      | None => mkF (Some b) ((i, FDone None) :: (i, FChecked) :: f_callers st) (f_rets st)
-      | Some v =>
-          mkF (Some (fmt_u (incr32 v)))
-              ((i, FDone (Some (incr32 v))) :: (i, FHasRead (incr32 v)) :: (i, FChecked) :: f_callers st)
-              ((i, incr32 v) :: f_rets st)
-      end
-  end.
-
-Lemma fcall3_eq st i : fget (f_callers st) i = FIdle -> fcall3 st i = fcall3_result st i.
+(* while caller i holds the mutex, or nobody does, every other caller is outside *)
+Lemma fcaller_other st st' i :
+  (forall j, j <> i -> fget (f_callers st') j = fget (f_callers st) j) ->
+  (f_lock st = Some i \/ f_lock st = None) ->
+  (f_lock st' = Some i \/ f_lock st' = None) ->
+  forall j, j <> i -> fcaller_inv st j -> fcaller_inv st' j.
 Proof.
-  intro G. unfold fcall3, fcall3_result.
-  assert (E1 : fstep st i =
-               mkF (match f_file st with None => Some [48] | Some b => Some b end)
-                   ((i, FChecked) :: f_callers st) (f_rets st)).
-  { unfold fstep. rewrite G. reflexivity. }
-  rewrite E1. clear E1.
-  destruct (f_file st) as [b|].
-  - unfold fstep at 2. cbn [f_callers f_file f_rets]. rewrite fget_cons_same.
-    destruct (parse_u32 b) as [v|].
-    + unfold fstep. cbn [f_callers f_file f_rets]. rewrite fget_cons_same. reflexivity.
-    + unfold fstep. cbn [f_callers f_file f_rets]. rewrite fget_cons_same. reflexivity.
-  - unfold fstep at 2. cbn [f_callers f_file f_rets]. rewrite fget_cons_same.
-    rewrite parse_zero, incr32_zero.
-    unfold fstep. cbn [f_callers f_file f_rets]. rewrite fget_cons_same. reflexivity.
+  intros Hsame Hl Hl' j Hne Cj. unfold fcaller_inv in *. rewrite (Hsame j Hne).
+  destruct (fget (f_callers st) j) as [| |m|r].
+  - destruct Hl' as [Hl'|Hl']; rewrite Hl'; congruence.
+  - exfalso. destruct Hl as [Hl|Hl]; rewrite Hl in Cj; congruence.
+  - exfalso. destruct Cj as [Cj _]. destruct Hl as [Hl|Hl]; rewrite Hl in Cj; congruence.
+  - destruct Hl' as [Hl'|Hl']; rewrite Hl'; congruence.
 Qed.
 
-Lemma fcall3_spec v0 st i :
-  finv v0 st -> fget (f_callers st) i = FIdle -> fcur (f_file st) < max_u32 ->
-  finv v0 (fcall3 st i) /\ fcur (f_file (fcall3 st i)) <= fcur (f_file st) + 1 /\
-  (forall j, j <> i -> fget (f_callers (fcall3 st i)) j = fget (f_callers st) j).
+Lemma finv_same_file v0 st fl lk cs :
+  finv v0 st -> fcur fl = fcur (f_file st) ->
+  (forall i, fcaller_inv (mkF fl lk cs (f_rets st)) i) ->
+  finv v0 (mkF fl lk cs (f_rets st)).
 Proof.
-  intros [V Le G0 S] G Hm. rewrite (fcall3_eq st i G). unfold fcall3_result.
-  destruct (f_file st) as [b|] eqn:F.
-  - destruct (parse_u32 b) as [v|] eqn:P.
-    + assert (Hv : fcur (Some b) = v) by (unfold fcur; rewrite P; reflexivity).
-      rewrite Hv in *. rewrite incr32_small by assumption.
-      assert (Hc : fcur (Some (fmt_u (v + 1))) = v + 1).
-      { unfold fcur. rewrite parse_fmt; [reflexivity|]. unfold max_u32, two32 in *. lia. }
-      cbn [f_callers f_file f_rets]. split; [|split].
-      * constructor; cbn [f_file f_rets map snd]; rewrite ?Hc.
-        -- lia.
-        -- constructor; [lia|]. eapply Forall_le_trans; [|exact Le]. lia.
-        -- constructor; [lia|exact G0].
-        -- constructor; [exact S|]. eapply Forall_impl; [|exact Le]. cbn. intros a Ha. lia.
-      * rewrite Hc. lia.
-      * intros j Hj. rewrite !fget_cons_other by assumption. reflexivity.
-    + cbn [f_callers f_file f_rets]. split; [|split].
-      * constructor; cbn [f_file f_rets]; assumption.
-      * lia.
-      * intros j Hj. rewrite !fget_cons_other by assumption. reflexivity.
-  - assert (Hc : fcur (Some (fmt_u 1)) = 1) by reflexivity.
-    assert (H0 : fcur (@None str) = 0) by reflexivity. rewrite H0 in *.
-    cbn [f_callers f_file f_rets]. split; [|split].
-    + constructor; cbn [f_file f_rets map snd]; rewrite ?Hc.
-      * lia.
-      * constructor; [lia|]. eapply Forall_le_trans; [|exact Le]. lia.
-      * constructor; [lia|exact G0].
-      * constructor; [exact S|]. eapply Forall_impl; [|exact Le]. cbn. intros a Ha. lia.
-    + rewrite Hc. lia.
-    + intros j Hj. rewrite !fget_cons_other by assumption. reflexivity.
+  intros [V Le G0 S Cn C] Hf Hc.
+  constructor; cbn [f_file f_lock f_callers f_rets]; rewrite ?Hf; assumption.
 Qed.
 
-Lemma frun_serial_cons st i ids :
-  frun st (fserial (i :: ids)) = frun (fcall3 st i) (fserial ids).
-Proof. reflexivity. Qed.
-
-Lemma fserial_inv v0 ids : forall st,
-  finv v0 st -> NoDup ids -> (forall i, In i ids -> fget (f_callers st) i = FIdle) ->
-  fcur (f_file st) + N.of_nat (length ids) <= max_u32 ->
-  finv v0 (frun st (fserial ids)).
+Lemma fstep_inv v0 st i : finv v0 st -> finv v0 (fstep st i).
 Proof.
-  induction ids as [|i ids IH]; intros st Hinv Hnd Hidle Hroom.
-  - exact Hinv.
-  - rewrite frun_serial_cons. inversion Hnd as [|? ? Hni Hnd']; subst.
-    cbn [length] in Hroom. rewrite Nat2N.inj_succ in Hroom.
-    destruct (fcall3_spec v0 st i Hinv (Hidle i (or_introl eq_refl))) as (Hinv' & Hgrow & Hoth);
-      [lia|].
-    apply IH; try assumption.
-    + intros j Hj. rewrite Hoth; [apply Hidle; right; exact Hj|].
-      intro E. subst. contradiction.
+  intros Hinv. pose proof Hinv as [V Le G0 S Cn C].
+  unfold fstep. pose proof (C i) as Ci. unfold fcaller_inv in Ci.
+  destruct (fget (f_callers st) i) as [| |n|r] eqn:G; [| | |exact Hinv].
+  - (* FIdle: takes the mutex if it is free *)
+    destruct (f_lock st) as [h|] eqn:L; [exact Hinv|].
+    apply finv_same_file; [exact Hinv|destruct (f_file st); reflexivity|].
+    intro j. destruct (N.eq_dec j i) as [->|Hne].
+    + unfold fcaller_inv. cbn [f_callers f_lock]. rewrite fget_cons_same. reflexivity.
+    + apply (fcaller_other st _ i); auto.
+      intros k Hk. cbn [f_callers]. apply fget_cons_other. exact Hk.
+  - (* FChecked: reads; a failure releases the mutex *)
+    assert (Hfail : finv v0 (mkF (f_file st) None ((i, FDone None) :: f_callers st) (f_rets st))).
+    { apply finv_same_file; [exact Hinv|reflexivity|].
+      intro j. destruct (N.eq_dec j i) as [->|Hne].
+      - unfold fcaller_inv. cbn [f_callers f_lock]. rewrite fget_cons_same. discriminate.
+      - apply (fcaller_other st _ i); auto.
+        intros k Hk. cbn [f_callers]. apply fget_cons_other. exact Hk. }
+    destruct (f_file st) as [b|] eqn:F; [|exact Hfail].
+    destruct (parse_u32 b) as [v|] eqn:P; [|exact Hfail].
+    destruct (next32 v) as [n|] eqn:Nx; [|exact Hfail].
+    destruct (next32_some v n (parse_lt _ _ P) Nx) as [Hm ->].
+    rewrite <- F. apply finv_same_file; [exact Hinv|reflexivity|].
+    intro j. destruct (N.eq_dec j i) as [->|Hne].
+    + unfold fcaller_inv. cbn [f_callers f_lock f_file]. rewrite fget_cons_same.
+      split; [exact Ci|]. rewrite F. unfold fcur. rewrite P.
+      unfold max_u32, two32 in *. split; lia.
+    + apply (fcaller_other st _ i); auto.
+      intros k Hk. cbn [f_callers]. apply fget_cons_other. exact Hk.
+  - (* FHasRead: writes the number and releases the mutex *)
+    destruct Ci as (Hl & Hn & Hlt).
+    assert (Hc : fcur (Some (fmt_u n)) = n) by (unfold fcur; rewrite (parse_fmt n Hlt); reflexivity).
+    constructor; cbn [f_file f_lock f_callers f_rets map snd length]; rewrite ?Hc.
     + lia.
+    + constructor; [lia|]. eapply Forall_le_trans; [|exact Le]. lia.
+    + constructor; [lia|exact G0].
+    + constructor; [exact S|]. eapply Forall_impl; [|exact Le]. cbn. intros a Ha. lia.
+    + rewrite Nat2N.inj_succ. lia.
+    + intro j. destruct (N.eq_dec j i) as [->|Hne].
+      * unfold fcaller_inv. cbn [f_callers f_lock]. rewrite fget_cons_same. discriminate.
+      * apply (fcaller_other st _ i); auto.
+        intros k Hk. cbn [f_callers]. apply fget_cons_other. exact Hk.
 Qed.
 
-Lemma file_serial_sorted f ids :
-  NoDup ids -> fcur f + N.of_nat (length ids) <= max_u32 ->
-  StronglySorted N.lt (fcur f :: fhanded (frun (finit f) (fserial ids))).
+Lemma frun_inv v0 sched : forall st, finv v0 st -> finv v0 (frun st sched).
 Proof.
-  intros Hnd Hroom.
-  assert (H0 : finv (fcur f) (finit f)).
-  { constructor; cbn; try constructor. lia. }
-  pose proof (fserial_inv (fcur f) ids (finit f) H0 Hnd (fun i _ => eq_refl) Hroom) as [_ _ G0 S].
+  induction sched as [|i r IH]; intros st Hinv; cbn; [exact Hinv|].
+  apply IH. apply fstep_inv. exact Hinv.
+Qed.
+
+Lemma finv_init f : finv (fcur f) (finit f).
+Proof.
+  constructor; cbn [finit f_file f_lock f_callers f_rets map length]; try constructor.
+  - lia.
+  - cbn. lia.
+  - intro i. unfold fcaller_inv. cbn. discriminate.
+Qed.
+
+(* every interleaving of any number of calls: numbers strictly increasing from the stored one *)
+Lemma file_sorted f sched :
+  StronglySorted N.lt (fcur f :: fhanded (frun (finit f) sched)).
+Proof.
+  pose proof (frun_inv (fcur f) sched _ (finv_init f)) as [_ _ G0 S _ _].
   unfold fhanded. rewrite map_rev. constructor.
   - apply ssorted_rev. exact S.
   - apply Forall_forall. intros y Hy. apply in_rev in Hy. rewrite Forall_forall in G0. auto.
+Qed.
+
+Lemma file_nodup f sched : NoDup (fhanded (frun (finit f) sched)).
+Proof.
+  pose proof (file_sorted f sched) as S. inversion S; subst. apply ssorted_nodup. assumption.
+Qed.
+
+(* no number is skipped or lost: the file stands at the start value plus the calls that returned *)
+Lemma file_dense f sched :
+  fcur (f_file (frun (finit f) sched)) =
+  fcur f + N.of_nat (length (fhanded (frun (finit f) sched))).
+Proof.
+  pose proof (frun_inv (fcur f) sched _ (finv_init f)) as [_ _ _ _ Cn _].
+  unfold fhanded. rewrite map_length, rev_length. exact Cn.
+Qed.
+
+(* mutual exclusion: at most one call is between Lock and Unlock *)
+Definition fcritical (st : fstate) (i : N) : Prop :=
+  match fget (f_callers st) i with FChecked => True | FHasRead _ => True | _ => False end.
+
+Lemma file_mutex f sched i j :
+  fcritical (frun (finit f) sched) i -> fcritical (frun (finit f) sched) j -> i = j.
+Proof.
+  pose proof (frun_inv (fcur f) sched _ (finv_init f)) as [_ _ _ _ _ C].
+  intros Hi Hj. pose proof (C i) as Ci. pose proof (C j) as Cj.
+  unfold fcritical, fcaller_inv in *.
+  assert (Li : f_lock (frun (finit f) sched) = Some i).
+  { destruct (fget (f_callers (frun (finit f) sched)) i) as [| |n|r]; try contradiction;
+      [exact Ci|exact (proj1 Ci)]. }
+  assert (Lj : f_lock (frun (finit f) sched) = Some j).
+  { destruct (fget (f_callers (frun (finit f) sched)) j) as [| |m|r]; try contradiction;
+      [exact Cj|exact (proj1 Cj)]. }
+  congruence.
+Qed.
+
+(* a call that finds the file at 2^32-1 fails and leaves it alone *)
+Lemma file_exhausted_fails st i b :
+  fget (f_callers st) i = FChecked -> f_file st = Some b -> parse_u32 b = Some max_u32 ->
+  f_file (fstep st i) = f_file st /\ f_rets (fstep st i) = f_rets st /\
+  fget (f_callers (fstep st i)) i = FDone None.
+Proof.
+  intros G F P. unfold fstep. rewrite G, F, P, next32_max.
+  cbn [f_file f_rets f_callers]. rewrite fget_cons_same. auto.
 Qed.
 
 (* ================= START_ACTIVITY ================= *)
